@@ -30,7 +30,7 @@ ALREADY = {"HashStoreRefsAlreadyExists", "PidRefsAlreadyExistsError"}
 
 
 def examples(tier):
-    return 1200 if tier == "quick" else 12000
+    return 1200 if tier == "quick" else 60000
 
 
 @st.composite
